@@ -113,7 +113,7 @@ pub fn case(line: &str) -> String {
         }
     };
     // renaming + redundant parentheses on the original itself
-    for pool in 1..4 {
+    for pool in 1..5 {
         check("rename-bound-variables", &c_pipe::unparse(&rec["t"], pool), &mut bad);
         n += 1;
     }
